@@ -1,6 +1,7 @@
 CONSTANTS
   Ext <- AllExtensions
   Conv = "empty"
+  Syntax <- SyntaxAsExt
   Defects = FALSE
   Mode = "sim"
   Kernel = "full"
